@@ -51,6 +51,18 @@ theorem C06_update_atomic (w : World) (g : Nat) (kvs : List (String × Nat)) (k 
     (h : (initUpdate w g kvs).2 = .raised k) : (initUpdate w g kvs).1 = w :=
   guardOp_atomic _ _ _ _ _ h
 
+/-- **C06_rename_values_atomic**: `rename_values` is all or nothing for any assignment (swaps,
+cycles, repeated values, mixed initializers / plain values) -/
+theorem C06_rename_values_atomic (w : World) (vs : List Nat) (names : List String) (k : String)
+    (h : (renameValues w vs names).2 = .raised k) : (renameValues w vs names).1 = w := by
+  unfold renameValues at h ⊢
+  split
+  · rfl
+  · rename_i hl; simp only [hl, if_false] at h
+    split
+    · rfl
+    · rename_i pairs hp; simp only [hp] at h; exact guardOp_atomic _ _ _ _ _ h
+
 /-- a reported cycle changes nothing -/
 theorem C06_sort_cycle_no_change (w : World) : (step w .sortCycle).1 = w := rfl
 
@@ -117,6 +129,12 @@ example : (step exW (.insertBefore 0 0 [1])).2 = .raised "ValueError" := by deci
 example : (step exW (.remove 0 [1] false)).2 = .raised "ValueError" := by decide
 example : (step exW (.remove 0 [0] true)).2 = .raised "ValueError" := by decide
 example : (step exW .sortCycle).2 = .raised "ValueError" := by decide
+example : (renameValues exW [3, 4] ["a", "a", "b"]).2 = .raised "ValueError" := by decide
+example : (renameValues exW [3, 3] ["a", "b"]).2 = .raised "ValueError" := by decide
+example : (renameValues exW [4, 3] ["q", ""]).2 = .raised "ValueError" := by decide
+/-- the composite calls are NOT claimed atomic: a later pair is rejected after the first was applied -/
+example : (rauwMany exW [0, 1] [4, 4] false).2 = .raised "ValueError" ∧ (rauwMany exW [0, 1] [4, 4] false).1 ≠ exW := by
+  decide
 /-- the rejected bulk update really was going to change something before its second entry -/
 example : (initUpdateSeq exW 0 [("a", 4), ("b", 4)]).1 ≠ exW := by decide
 
